@@ -68,7 +68,17 @@ func NewTypeInfo(doc *ast.Document, s *schema.Schema, features schema.FeatureSet
 				}
 			}
 		case *ast.ObjectValue:
-			if expected, ok := schema.NullableType(ret.ExpectedTypes[node]).(*schema.InputObjectType); ok {
+			// An object may stand for a list of one object (input coercion of a single item to a
+			// list), so its fields are those of the innermost item type.
+			expectedType := schema.NullableType(ret.ExpectedTypes[node])
+			for {
+				if list, ok := expectedType.(*schema.ListType); ok {
+					expectedType = schema.NullableType(list.Type)
+				} else {
+					break
+				}
+			}
+			if expected, ok := expectedType.(*schema.InputObjectType); ok {
 				for _, field := range node.Fields {
 					if expected, ok := expected.Fields[field.Name.Name]; ok {
 						ret.ExpectedTypes[field.Value] = expected.Type
